@@ -461,6 +461,12 @@ func (db *SingleBucketBackend) deleteObjectLocked(bucketName, objectName string)
 		return err
 	}
 
+	// A directory is not an object: it only exists because keys live below
+	// it, so there is no key of that name to delete.
+	if stat, err := db.fs.Stat(filepath.FromSlash(objectName)); err == nil && stat.IsDir() {
+		return nil
+	}
+
 	// S3 does not report an error when attemping to delete a key that does not exist, so
 	// we need to skip IsNotExist errors.
 	if err := db.fs.Remove(filepath.FromSlash(objectName)); err != nil && !os.IsNotExist(err) {
